@@ -27,7 +27,10 @@ import numpy as np
 from . import common
 
 PROP = "C17"
-LEAN_MODULES = ["MiciVerif.Props.C17"]
+LEAN_MODULES = ["MiciVerif.Props.C17", "MiciVerif.Props.C17S"]
+# Generated/AdaptersSrc.lean: the scalar arithmetic of adapters.py translated to Lean on every run;
+# Props/C17S.lean proves generated = model (src_*_eq_model) and transports C17 theorems
+GENERATED = ["pysrc"]
 LEAN_EXTRA = [
     "MiciVerif.Model.Adapters",
     "MiciVerif.Lemmas.Adapters",
@@ -710,6 +713,11 @@ def check(ctx, name, case, sig=None):
 
 
 def run(ctx: common.Ctx):  # noqa: C901, PLR0912, PLR0915
+    from .c20 import _n, src_obligation_status
+
+    # a broken src_* obligation (adapters.py no longer translates to the model) escalates every
+    # failing-input search below (tripled budgets)
+    src_broken = src_obligation_status(ctx, "MiciVerif.Props.C17S")
     rng = common.rng_for(ctx)
     ctx.rule = (
         "Welford: position sequences (dim 1-4, length 1-60/200, dyadic) compared after every update; merge: "
@@ -731,10 +739,10 @@ def run(ctx: common.Ctx):  # noqa: C901, PLR0912, PLR0915
     reqs, metas = [], []
 
     # ---- Welford states after each update --------------------------------------------
-    for _ in range(ctx.n(150, 600)):
+    for _ in range(_n(ctx, 150, 600)):
         kind = "var" if rng.random() < 0.5 else "cov"
         dim = int(rng.integers(1, 5))
-        n = int(rng.integers(1, ctx.n(60, 200) if kind == "var" else ctx.n(25, 80)))
+        n = int(rng.integers(1, _n(ctx, 60, 200) if kind == "var" else _n(ctx, 25, 80)))
         data = dyadic(rng, (n, dim))
         if rng.random() < 0.15:
             data[:] = data[0]  # constant history
@@ -743,10 +751,10 @@ def run(ctx: common.Ctx):  # noqa: C901, PLR0912, PLR0915
 
     # ---- merged / regularised / metric --------------------------------------------------
     merge_cases = []
-    for i in range(ctx.n(500, 3000)):
+    for i in range(_n(ctx, 500, 3000)):
         kind = "var" if rng.random() < 0.5 else "cov"
         dim = int(rng.integers(1, 5))
-        n = int(rng.choice([0, 1, 2, 3, 5, 8, 13, 30, 60])) if rng.random() < 0.7 else int(rng.integers(2, ctx.n(60, 200)))
+        n = int(rng.choice([0, 1, 2, 3, 5, 8, 13, 30, 60])) if rng.random() < 0.7 else int(rng.integers(2, _n(ctx, 60, 200)))
         off = int(rng.choice([0, 1, 5, 10, 50]))
         if off == 0 and kind == "cov":
             n = max(n, dim + 3)
@@ -766,7 +774,7 @@ def run(ctx: common.Ctx):  # noqa: C901, PLR0912, PLR0915
             metas.append(("merge", case))
 
     # ---- dual averaging -------------------------------------------------------------------
-    for _ in range(ctx.n(250, 1500)):
+    for _ in range(_n(ctx, 250, 1500)):
         p = {
             "target": float(rng.choice([0.8, 0.65, 0.5, 0.9])),
             "reg_target": float(rng.choice([0.0, math.log(10 * 0.25), -3.5, 2.0])),
@@ -774,7 +782,7 @@ def run(ctx: common.Ctx):  # noqa: C901, PLR0912, PLR0915
             "kappa": float(rng.choice([0.75, 0.5, 1.0, 0.6])),
             "iter_offset": int(rng.choice([10, 0, 1, 25])),
         }
-        m = int(rng.integers(1, ctx.n(40, 150)))
+        m = int(rng.integers(1, _n(ctx, 40, 150)))
         alphas = (rng.integers(0, 65, size=m) / 64.0).tolist()
         if rng.random() < 0.2:
             alphas = [float(rng.choice([0.0, 1.0]))] * m
@@ -810,7 +818,7 @@ def run(ctx: common.Ctx):  # noqa: C901, PLR0912, PLR0915
         dflt = str(rng.choice(["E", "N", "I", "0.125", "3.0", "0.5", "1.0"]))
         return {"lo": lo, "tokens": toks, "default": dflt}
 
-    for i in range(ctx.n(1500, 10000)):
+    for i in range(_n(ctx, 1500, 10000)):
         sc = rand_script()
         mi = int(rng.choice([0, 1, 2, 3, 5, 8, 12, 20, 40, 100]))
         case = {"script": sc, "max_iters": mi, "h_init": float(rng.integers(-8, 9)) / 2.0,
@@ -820,6 +828,26 @@ def run(ctx: common.Ctx):  # noqa: C901, PLR0912, PLR0915
         d = d if d in ("E", "N", "I") else common.fstr(float(d))
         reqs.append(f"search {mi} {int(case['h_init_nan'])} {common.fstr(LOG2)} {sc['lo']} {d} {toks}")
         metas.append(("search", case))
+
+    if any("search" in b for b in src_broken):
+        # targeted: the tests of the search loop differ from the model's only on the threshold itself
+        # or through NaN / failures; put |delta h| exactly on log 2 and one ulp around it (h_init = 0
+        # makes h_init + d - h_init exact)
+        edge = [repr(LOG2), repr(math.nextafter(LOG2, 0.0)), repr(math.nextafter(LOG2, 4.0))]
+        for i in range(600):
+            lo, hi = -int(rng.integers(1, 7)), int(rng.integers(1, 7))
+            toks = []
+            for e in range(lo, hi + 1):
+                r = rng.random()
+                toks.append(edge[int(rng.integers(3))] if r < 0.45 else "E" if r < 0.55 else "N" if r < 0.62
+                            else repr(float(rng.integers(0, 9)) / 4.0))
+            sc = {"lo": lo, "tokens": toks, "default": str(rng.choice(["0.125", "3.0", edge[0]]))}
+            mi = int(rng.choice([1, 2, 3, 5, 8, 12, 20]))
+            case = {"script": sc, "max_iters": mi, "h_init": 0.0, "h_init_nan": False, "via_initialize": i % 2 == 0}
+            toks_s = ",".join(t if t in ("E", "N", "I") else common.fstr(float(t)) for t in sc["tokens"])
+            reqs.append(f"search {mi} 0 {common.fstr(LOG2)} {sc['lo']} {common.fstr(float(sc['default']))} {toks_s}")
+            metas.append(("search", case))
+            ctx.count("search:targeted_threshold")
 
     model = common.run_driver("C17", reqs)
 
@@ -963,13 +991,13 @@ def run(ctx: common.Ctx):  # noqa: C901, PLR0912, PLR0915
             check(ctx, "search", case)
 
     # ---- direct oracles ------------------------------------------------------------------
-    for case in merge_cases[:: max(1, len(merge_cases) // ctx.n(500, 3000))]:
+    for case in merge_cases[:: max(1, len(merge_cases) // _n(ctx, 500, 3000))]:
         if nan_expected(case["chains"]):
             continue
         ctx.count("oracle:batch")
         check(ctx, "batch", case)
     # dict vs list, momenta
-    for i in range(ctx.n(200, 1500)):
+    for i in range(_n(ctx, 200, 1500)):
         kind = "var" if i % 2 == 0 else "cov"
         dim = int(rng.integers(1, 5))
         n = int(rng.integers(dim + 3, 40))
@@ -984,10 +1012,10 @@ def run(ctx: common.Ctx):  # noqa: C901, PLR0912, PLR0915
         if single:
             check(ctx, "batch", {**case, "as_dict": True})
     # numerically hard inputs (testing of numerical stability)
-    for i in range(ctx.n(120, 800)):
+    for i in range(_n(ctx, 120, 800)):
         kind = "var" if i % 2 == 0 else "cov"
         dim = int(rng.integers(1, 4))
-        n = int(rng.integers(dim + 3, ctx.n(120, 200)))
+        n = int(rng.integers(dim + 3, _n(ctx, 120, 200)))
         base = float(rng.choice([1e8, -1e8, 1e8 + 1, 1e8 - 1]))
         data = base + rng.integers(-1024, 1025, size=(n, dim)).astype(np.float64) / 1024.0
         sizes = random_partition(rng, n, allow_empty=False)
@@ -996,7 +1024,7 @@ def run(ctx: common.Ctx):  # noqa: C901, PLR0912, PLR0915
         ctx.count("oracle:large_offset")
         check(ctx, "offset", case, sig=f"offset:{kind}")
     # dual averaging closed form etc.
-    for i in range(ctx.n(200, 1500)):
+    for i in range(_n(ctx, 200, 1500)):
         p = {
             "target": float(rng.choice([0.8, 0.651, 0.5])), "reg_target": float(rng.normal()),
             "reg_coeff": float(rng.choice([0.05, 0.2])), "kappa": float(rng.choice([0.75, 0.51, 1.0])),
@@ -1008,7 +1036,7 @@ def run(ctx: common.Ctx):  # noqa: C901, PLR0912, PLR0915
         sm = rng.normal(size=int(rng.integers(1, 6))).tolist()
         check(ctx, "da_finalize", {"smoothed": sm})
     # real sampler runs
-    for i in range(ctx.n(12, 120)):
+    for i in range(_n(ctx, 12, 120)):
         case = {"kind": "var" if i % 2 == 0 else "cov", "dim": int(rng.integers(1, 4)), "n_chain": int(rng.integers(1, 5)),
                 "n_warm": int(rng.integers(3, 40)), "off": int(rng.choice([0, 5, 10])) if i % 2 == 0 else int(rng.choice([5, 10])),
                 "scale": 1e-3, "step": float(rng.choice([0.25, 0.5, 1.0])), "seed": int(rng.integers(0, 2 ** 31))}
@@ -1074,3 +1102,12 @@ TECHNIQUE = (
     "Lean 4 theorems over arbitrary fields (induction over histories and chain lists, state-machine induction for the "
     "search) + exact-rational model/implementation correspondence + direct NumPy/Fraction oracles on the real adapters"
 )
+
+# --- source translator tie (tools/extractors/pysrc.py, Props/C17S.lean) ---
+LEVEL_TEXT += (
+    ' SOURCE TIE (Props/C17S.lean): on every run tools/extractors/pysrc.py translates the scalar arithmetic of adapters.py (dual-averaging update and finalize, Welford update of both metric adapters, first-chain / merge-step branches of both finalize loops, n_iter < 2 error, division by n_iter - 1, both _regularize methods, and the try block / except handler of the initial step-size search as Boolean functions) into Lean; src_*_eq_model prove generated = model (src_search_eq_model: the loop rebuilt from the generated body is searchLoop, by induction); src_welford_eq_batch, src_welfordCov_eq_batch, src_merge_eq_concat, src_finalize_error_iff, src_regularize_formula, src_da_error_recursion, src_search_crossing restate C17 theorems for the generated definitions.'
+)
+LEVEL_NOTE += (
+    ' Translator conventions (trusted, validated entry by entry by the correspondence): NumPy arrays are one component / one ordered pair of components, v[None,:] * w[:,None] and np.outer are the (a,b) entry, x**2 = x*x, in-place updates are required where the caller relies on them, reg_iter_offset is an integer (None outside the model), the statements around the translated arithmetic (loop headers, metric assignment, momentum refresh) are checked syntactically and fail closed.'
+)
+TECHNIQUE += ' + source-to-Lean translation of the adapter arithmetic with generated = model equalities re-proved on every run'
